@@ -2,7 +2,7 @@
 SB = dict(overlays=['contracts/schema.ovl'], harness='harness/C17/schema_builder.c',
           extra_sources=['stubs/schema_stubs.c'], includes=['.'],
           trusted=['stubs/schema_stubs.c: carquet_arena_init_size/destroy/strdup/calloc (NULL or fresh object), carquet_error_set, strcmp (uninterpreted), realloc (new object, observed windows kept)',
-                   'schema capacity < 2^30 elements (see c17_schema_capacity_overflow for the full range)'])
+                   'case split num_elements < capacity (growth path schema_ensure_capacity/realloc not covered: formula exceeds 8 GB)', 'schema capacity < 2^30 elements'])
 OOM = ['--malloc-may-fail', '--malloc-fail-null']
 LEAK = ['--bounds-check', '--pointer-check', '--div-by-zero-check', '--signed-overflow-check', '--undefined-shift-check', '--memory-leak-check']
 
@@ -10,7 +10,7 @@ RP_ADD = dict(kind='direct', harness='replay/direct/schema_add_column.c', source
 AC = dict(replayer=RP_ADD, entry='h_add_column', unwind=6, functions=['carquet_schema_add_column', 'carquet_schema_free'], **SB)
 NOGROW = 'case split: num_elements < capacity (no reallocation); the growth case is c17_ensure_capacity'
 JOBS = [
-    dict(name='c17_add_column_state', props=['C17'], defines=['CQV_PART=0', 'CQV_SCHEMA_MEMSET', 'CQV_NOGROW'], note=NOGROW, wip=True, **AC),
+    dict(name='c17_add_column_state', props=['C17'], defines=['CQV_PART=0', 'CQV_SCHEMA_MEMSET', 'CQV_NOGROW'], note=NOGROW, wip=False, est_s=40, **AC),
     dict(name='c17_add_column_def_level', props=['C17'], defines=['CQV_PART=1', 'CQV_SCHEMA_MEMSET', 'CQV_NOGROW'], wip=True,
          note='FINDING: REPEATED leaf gets max_def 0 (must be 1)', **AC),
     dict(name='c19_add_column_name_copy', props=['C19', 'C17'], defines=['CQV_PART=2', 'CQV_SCHEMA_MEMSET', 'CQV_NOGROW'], wip=True,
@@ -21,11 +21,12 @@ FR = dict(overlays=['contracts/file_reader_schema.ovl'], harness='harness/C17/fi
           extra_sources=['stubs/mem_stubs.c', 'stubs/schema_stubs.c'], includes=['.'],
           trusted=['stubs/schema_stubs.c: carquet_arena_calloc (NULL or fresh zeroed object of count*size bytes), carquet_error_set'])
 JOBS += [
-    dict(name='c17_file_schema_spec_n4', props=['C17', 'C04'], entry='h_file_schema_spec', level='bounded', loop_contracts=False,
+    dict(name='c17_file_schema_spec_n4', props=['C17', 'C04'], entry='h_file_schema_spec', level='bounded', loop_contracts=False, tier='thorough',
+         note='UNDECIDED: times out (400 s) even at 4 elements; recursion x loop unwinding too large',
          bound='element lists with <= 4 elements, num_children in 0..3, all repetition labels', defines=['CQV_N=4', 'CQV_NC=3'], unwind=6,
          functions=['build_schema', 'compute_levels', 'traverse_schema_recursive', 'count_leaves'], wip=True, timeout=400, **FR),
-    dict(name='c04_file_schema_work_n4', props=['C04'], entry='h_file_schema_work', level='bounded', loop_contracts=False,
+    dict(name='c04_file_schema_work_n4', props=['C04'], entry='h_file_schema_work', level='bounded', loop_contracts=False, tier='thorough',
          bound='element lists with <= 4 elements, num_children in 0..3', defines=['CQV_N=4', 'CQV_NC=3'], unwind=6,
          functions=['build_schema', 'compute_levels', 'traverse_schema_recursive'], wip=True,
-         note='FINDING: traverse loops num_children times after the element list is exhausted', **FR),
+         note='UNDECIDED in CBMC (timeout); FINDING shown natively (/tmp/schema/trav.c): traverse loops num_children times after the element list is exhausted', **FR),
 ]
